@@ -66,6 +66,14 @@ def shapes():
         Variant("v0", [Stmt("a1", ex=["s"]), Stmt("a2", ex=["s"]), Stmt("a3", ex=["t"]), Stmt("con", ex=["t"], pool="console"),
                        Stmt("z1", ex=["s"]), Stmt("all", ex=["a1", "a2", "a3", "con", "z1"], phony=True)], defaults=["all"]),
     ]))
+    # an (invalid) dyndep file that claims, as implicit output of its statement, a name that a phony statement declares
+    # (a checked-in header) or that another statement produces: the build refuses it; the clean tools ignore loader errors
+    S.append(("dyndep_claims_phony_name", [
+        Variant("v0", [Stmt("hdr.h", phony=True), Stmt("out", ex=["in"], oo=["ddx"], dyndep="ddx"), Stmt("other", ex=["hdr.h"])]),
+    ]))
+    S.append(("dyndep_claims_other_output", [
+        Variant("v0", [Stmt("gen", ex=["s"]), Stmt("out", ex=["in"], oo=["ddx"], dyndep="ddx"), Stmt("other", ex=["gen"])]),
+    ]))
     S.append(("no_input_edge", [
         Variant("v0", [Stmt("ver.h"), Stmt("obj", ex=["src"], im=["ver.h"]), Stmt("exe", ex=["obj"])]),
     ]))
@@ -133,8 +141,12 @@ def clean_scenarios(tier="quick"):
         if name == "two_dyndep":
             files = {"dd1.in": "ninja_dyndep_version = 1\nbuild out1 | out1.imp: dyndep\n",
                      "dd2.in": "ninja_dyndep_version = 1\nbuild out2 | out2.imp: dyndep\n"}
+        if name == "dyndep_claims_phony_name":
+            files = {"ddx": "ninja_dyndep_version = 1\nbuild out | hdr.h: dyndep\n", "hdr.h": "hand-written header\n"}
+        if name == "dyndep_claims_other_output":
+            files = {"ddx": "ninja_dyndep_version = 1\nbuild out | gen: dyndep\n"}
         T.append(scenario("c18/" + name, "c18", variants, files=files, ops=ops + tools, init=[build],
-                          depth=3 if tier == "quick" else 4, tags=["clean"]))
+                          depth=3 if tier == "quick" else 4, tags=["clean"] + (["invalid-dyndep"] if name.startswith("dyndep_claims") else [])))
     # a build log past the recompaction threshold with a stale output that still exists on disk
     v = Variant("v0", [Stmt("a", ex=["s"]), Stmt("b", ex=["a"])])
     log = "# ninja log v7\n"
@@ -182,7 +194,7 @@ def regen_scenario(tier):
 def readonly_scenarios(tier="quick"):
     T = [regen_scenario(tier)]
     for name, variants in shapes() + builddir_shapes():
-        if name == "two_dyndep":
+        if name == "two_dyndep" or name.startswith("dyndep_claims"):
             continue   # C19 is stated for graphs without pending dyndep files
         variants = variants[:1]
         ops, build = _common_ops(variants)
